@@ -712,7 +712,23 @@ func locBranches(c *Ctx, a *flAgg) {
 			case kind == "gomod" && noSlash:
 				okImp = imp != nil && imp.String() == pkgS
 			case kind == "gomod":
-				okImp = imp != nil && imp.Op == OpBin && imp.Tok == token.ADD && isDir(imp.Args[1]) && imp.Args[0].String() == "("+pkgS+" + \"/\")"
+				// module path + "/" + directory, however the concatenation is grouped
+				var parts []*Expr
+				var flat func(e *Expr)
+				flat = func(e *Expr) {
+					if e != nil && e.Op == OpBin && e.Tok == token.ADD && len(e.Args) == 2 {
+						flat(e.Args[0])
+						flat(e.Args[1])
+						return
+					}
+					parts = append(parts, e)
+				}
+				flat(imp)
+				if len(parts) == 3 && parts[0] != nil && parts[0].String() == pkgS && isDir(parts[2]) {
+					if sep, ok := constStr(parts[1]); ok && sep == "/" {
+						okImp = true
+					}
+				}
 			case noSlash:
 				okImp = imp == nil
 			default:
